@@ -84,11 +84,11 @@ fn collect_refs(n: &Node, host: (i32, i32), out: &mut Vec<Value>) {
             collect_refs(right, host, out);
         }
         Node::OpRangeKind { left, right } => {
-            // "#REF!:#REF!" is one broken range
+            // "#REF!:#REF!" (or a range one of whose ends is #REF!) is one broken range
             let mut inner = vec![];
             collect_refs(left, host, &mut inner);
             collect_refs(right, host, &mut inner);
-            if !inner.is_empty() && inner.iter().all(|x| x == "referr") {
+            if !inner.is_empty() && inner.iter().any(|x| x == "referr") {
                 out.push(json!("referr"));
             } else {
                 out.extend(inner);
@@ -167,7 +167,7 @@ fn observe(um: &UserModel) -> Obs {
     Obs { cells }
 }
 
-pub fn replay(path: &str, out_dir: &str) -> Result<Value, String> {
+pub fn replay(path: &str, out_dir: &str, prop_override: &str) -> Result<Value, String> {
     std::fs::create_dir_all(out_dir).map_err(|e| e.to_string())?;
     let f = std::fs::File::open(path).map_err(|e| e.to_string())?;
     let mut mism = std::io::BufWriter::new(std::fs::File::create(format!("{}/mismatches.ndjson", out_dir)).map_err(|e| e.to_string())?);
@@ -255,8 +255,11 @@ pub fn replay(path: &str, out_dir: &str) -> Result<Value, String> {
         let steps = b["steps"].as_array().cloned().unwrap_or_default();
         'steps: for (si, st) in steps.iter().enumerate() {
             let a = &st["a"];
-            let op = a["op"].as_str().unwrap_or("").to_string();
+            let mut op = a["op"].as_str().unwrap_or("").to_string();
             let res = crate::ops::apply(&mut um, a);
+            if prop_override == "C16" {
+                op = format!("{}-{}", if a["cut"] == json!(true) { "cut" } else { "copy" }, if a["ts"] == a["s"] { "same-sheet" } else { "other-sheet" });
+            }
             program.push(a.clone());
             n_steps += 1;
             if res.tag() != "ok" {
@@ -272,6 +275,9 @@ pub fn replay(path: &str, out_dir: &str) -> Result<Value, String> {
             // C14 judges the pair by its final state
             let c14_next = op.starts_with("insert") && steps.get(si + 1).map(|nx| nx["a"]["op"].as_str().unwrap_or("") == op.replace("insert", "delete") && nx["a"]["i"] == a["i"] && nx["a"]["k"] == a["k"]).unwrap_or(false);
             let prop_of = |what: &str| -> &'static str {
+                if prop_override == "C16" {
+                    return "C16";
+                }
                 match (op.as_str(), what) {
                     (_, "link") | (_, "cf") | ("clear_contents", _) | ("undo", _) | ("copy_paste", _) => "C33",
                     ("insert_rows", _) | ("insert_cols", _) => "C12",
@@ -411,7 +417,7 @@ pub fn replay(path: &str, out_dir: &str) -> Result<Value, String> {
             let want_links: BTreeSet<(i64, i64)> = st["links"].as_array().map(|a| a.iter().map(|p| (p[0].as_i64().unwrap_or(0), p[1].as_i64().unwrap_or(0))).collect()).unwrap_or_default();
             let got_links: BTreeSet<(i64, i64)> = um.get_links_list(0).unwrap_or_default().iter().map(|l| (l.row as i64, l.column as i64)).collect();
             n_checks += 1;
-            if want_links != got_links {
+            if st["linksopen"] != json!(true) && want_links != got_links {
                 if prop_of("cell") != "C33" {
                     report("cell", "link-position", format!("got {:?} want {:?}", got_links, want_links));
                 }
